@@ -4,9 +4,9 @@ go 1.18
 
 require (
 	github.com/brianvoe/gofakeit/v6 v6.19.0
-	github.com/bytedance/gopkg v0.1.1
+	github.com/bytedance/gopkg v0.1.4
 	github.com/cloudwego/frugal v0.1.7
-	github.com/cloudwego/gopkg v0.1.2
+	github.com/cloudwego/gopkg v0.2.0
 	github.com/cloudwego/thriftgo v0.2.4
 )
 
